@@ -89,6 +89,13 @@ def build_jobs(ctx, sc, exe, thorough, want_class=("ws",)):
                 opts[n] = rng.choice(["true", "false"])
             for n in rng.sample(tpos, rng.choice([0, 0, 1, 3])):
                 opts[n] = rng.choice(["lead", "lead_break", "lead_force", "trail", "trail_break", "trail_force", "join", "break", "force"])
+            if rng.random() < 0.25:
+                # newline-heavy: every newline-adding option on (macro bodies must then gain backslash-newlines, not bare ones)
+                for n in nlo:
+                    opts[n] = rng.choice(["add", "force", "force"])
+                for n in ws_bools:
+                    if n.startswith("nl_"):
+                        opts[n] = "true"
             opts.update({"indent_columns": rng.choice([2, 4, 8]), "indent_with_tabs": rng.choice([0, 1, 2]),
                          "code_width": rng.choice([0, 0, 40, 80]), "align_assign_span": rng.choice([0, 2]),
                          "align_var_def_span": rng.choice([0, 2]), "align_nl_cont": rng.choice(["false", "true"]) if False else rng.choice([0, 1]),
